@@ -93,9 +93,10 @@ func genLru(r *Rng, tier string, idx int, args map[string]string) []string {
 }
 
 type lruShadow struct {
-	val    int
-	stored int64 // virtual time of the put that stored val
-	used   int   // logical tick of last hit / put
+	val     int
+	stored  int64 // virtual time of the put that stored val
+	created int64 // virtual time of the put that created the entry (an overwrite keeps it): the earliest instant its age can count from
+	used    int   // logical tick of last hit / put
 }
 
 func execLru(ops []string, mon *Mon) []string {
@@ -159,7 +160,7 @@ func execLru(ops []string, mon *Mon) []string {
 			if s, ok := shadow[k]; ok {
 				s.val, s.stored, s.used = v, now, tick
 			} else {
-				shadow[k] = &lruShadow{val: v, stored: now, used: tick}
+				shadow[k] = &lruShadow{val: v, stored: now, created: now, used: tick}
 			}
 			out = append(out, "ok")
 		case "get":
@@ -183,8 +184,11 @@ func execLru(ops []string, mon *Mon) []string {
 				}
 				out = append(out, "some "+Itoa(v.(int)))
 			} else {
-				if _, had := shadow[k]; had {
+				if s, had := shadow[k]; had {
 					// allowed only if the entry expired
+					if ttl <= 0 || now-s.created <= ttl {
+						mon.Hit("C12", "get-missed-live-entry", map[string]interface{}{"key": k, "age_ns": now - s.created, "ttl": ttl, "op": o})
+					}
 					mon.Tag("expired-on-get")
 					delete(shadow, k)
 				}
@@ -215,8 +219,11 @@ func execLru(ops []string, mon *Mon) []string {
 				mon.Tag("swept")
 			}
 			for _, g := range gone {
-				// created <= stored, so "stored longer ago than ttl" is necessary for a legitimate removal only
-				// when the value was never updated; the sound check uses creation time, which the model covers.
+				// an entry's age counts from its creation at the earliest (created <= stored): whatever the
+				// sweep removes must have been created more than one lifetime ago
+				if s, ok := shadow[g]; ok && (ttl <= 0 || now-s.created <= ttl) {
+					mon.Hit("C12", "sweep-removed-unexpired", map[string]interface{}{"key": g, "age_ns": now - s.created, "ttl": ttl, "gone": gone})
+				}
 				delete(shadow, g)
 			}
 			out = append(out, Itoa(n))
